@@ -4,6 +4,8 @@ pub mod c06;
 pub mod c07;
 pub mod c08;
 pub mod c09;
+pub mod c10;
+pub mod c11;
 pub mod c12;
 pub mod c13;
 pub mod c14;
@@ -20,6 +22,8 @@ pub fn run(id: &str, cx: &mut Cx) -> bool {
         "C07" => c07::run(cx),
         "C08" => c08::run(cx),
         "C09" => c09::run(cx),
+        "C10" => c10::run(cx),
+        "C11" => c11::run(cx),
         "C12" => c12::run(cx),
         "C13" => c13::run(cx),
         "C14" => c14::run(cx),
